@@ -151,6 +151,32 @@ CLAIMED["C20"] = dict(
     technique="TLA+ spec (ExactGeom!ValidSimplification) + TLC exhaustive enumeration of point sequences; "
               "observation checking by TLC")
 
+CLAIMED["C09"] = dict(
+    text="Model checking: ExactSums states area (shoelace sum, counter-clockwise positive) and length as integer sums "
+         "and the measures of nested values as sums over their parts. TLC enumerates every sequence of up to 3 parts "
+         "from a catalogue of rings / lines / polygons (empty ring, empty polygon, polygon with an empty ring, "
+         "degenerate two-point ring at every position) for all 7 types x layouts, checks that two formulas for the "
+         "area agree on the catalogue, and the real Area() / Length() of the whole geometry and of every part "
+         "accessor are decided exactly by TLC; a panic is a violation.",
+    ref="DESIGN.md 3.1, 3.7, 4-C09",
+    note="Bounded: catalogue and sequence length; only inputs on which the measures are exact in float64 (the "
+         "rounding-bound clause for ordinates up to 2^200 is not decided by this tier). Trusted base: " + TBX,
+    technique="TLA+ spec (ExactSums: Area2, Length, additivity) + TLC exhaustive enumeration of nested shapes; "
+              "observation checking by TLC")
+CLAIMED["C14"] = dict(
+    text="Model checking: ExactSums gives the mean, the length-weighted and the area-weighted centroid as exact "
+         "rationals from the textbook sums (shell counted with |area|, holes with -|area|, zero total area falls "
+         "back to the length-weighted centroid). TLC assembles polygons from a catalogue of simple shells "
+         "(convex, concave, flat top, unique top) in both directions and every start vertex, with subsets of holes "
+         "in both directions, one or two members, offsets up to 1e5, zero-area polygons, polylines and point sets; "
+         "it checks on the catalogue itself that rings are simple, holes strictly inside, and that the oracle is "
+         "translation-equivariant and direction-independent; every centroid entry point, IsRingCounterClockwise "
+         "and SignedArea are decided by TLC (centroids in 2^-8 fixed point relative to the offset, direction and "
+         "area exactly).",
+    ref="DESIGN.md 3.7, 4-C14", note="Bounded: catalogue-based valid polygons. Trusted base: " + TBX,
+    technique="TLA+ spec (ExactSums: centroid numerators, Area2) + TLC enumeration of catalogue polygons; "
+              "observation checking by TLC")
+
 NOT_YET = {}
 
 
